@@ -145,7 +145,8 @@ CONSTANTS MaxDepth,   \* 1 singles, 2 pairs, 3 triples
 ForkSet(ops) == {Mk(o, <<Flat(i1, 2), Flat(i2, 3)>>) : o \in {x \in ops : x.k = "bin"}, i1 \in ops, i2 \in ops}
 
 (* blank / comment filler that may replace the single blank between two tokens (C09, 2nd sentence) *)
-Fillers == <<"  ", "\n", "\t", " /*c*/ ", "/**/", " #c\n", "#\n", "\r\n", "/* # */", "#/*\n">>
+Fillers == <<"  ", "\n", "\t", " /*c*/ ", "/**/", " #c\n", "#\n", "\r\n", "/* # */", "#/*\n",
+             "/***/", "/** d **/", "/* a * b */", "/* x **/", "/****/", "/** a **/ /* b */", "/* / */", "/*/ */", "# a # b\n", " #\r\n">>
 EmitF == PrintT(<<"FILL", ToJson(Fillers)>>)
 
 VARIABLES t, d
